@@ -1,13 +1,364 @@
-"""Additional observation arms: sanitizer driver (C07 + corroboration), constant-evaluator (C08), reach (gcov)."""
+"""Additional observation arms.
+
+  sanitizer arm   (C07)  wrappers.cc + fixed_math.cc built with ASan+UBSan (report build) or trapping UBSan
+                         (trap build, thorough), driven by san_main.cc: one forked child per entry point.
+  consteval arm   (C08, second witness for C07)  generated static_assert translation units: the compilers'
+                         constant evaluators execute the library code and reject every undefined operation.
+  reach arm       (thorough)  gcov line counts of the anchored source files under the property's workload.
+"""
+import os, re, json, subprocess, time, shutil, glob, struct
+from concurrent.futures import ThreadPoolExecutor
+import vcheck as V
+
+ASAN_OPTS = 'handle_segv=0:handle_sigfpe=0:handle_sigill=0:handle_abort=0:allow_user_segv_handler=1:detect_leaks=0:halt_on_error=0'
 
 
+# ------------------------------------------------------------------------------------------------ sanitizer arm
+class SanBuild:
+    def __init__(self, compiler, mode, opt):
+        self.compiler, self.mode, self.opt = compiler, mode, opt
+        cc = 'gcc' if compiler == 'g++' else 'clang'
+        self.name = f'{cc}-{mode}{opt}'
+
+    def flags(self):
+        f = ['-std=c++17', self.opt, '-g', '-fno-omit-frame-pointer', '-w', f'-D{V.HOOK_DEFINE}=1', f'-I{V.LIB_INC}']
+        if self.mode == 'report':
+            f += ['-fsanitize=address,undefined,float-cast-overflow', '-fsanitize-recover=address,undefined,float-cast-overflow']
+        else:
+            f += ['-fsanitize=undefined,float-cast-overflow']
+            f += ['-fsanitize-undefined-trap-on-error'] if self.compiler == 'g++' else ['-fsanitize-trap=undefined,float-cast-overflow']
+        if self.compiler == 'clang++':
+            f += ['-fno-sanitize=object-size']
+        return f
+
+
+def san_builds(tier):
+    b = [SanBuild('g++', 'report', '-O1'), SanBuild('clang++', 'report', '-O1')]
+    if tier == 'thorough':
+        b += [SanBuild(c, 'trap', o) for c in ('g++', 'clang++') for o in ('-O0', '-O2')]
+    return b
+
+
+def build_san(sb):
+    d = os.path.join(V.CACHE, 'obj', V.tree_hash())
+    os.makedirs(d, exist_ok=True)
+    srcs = [os.path.join(V.HARNESS, 'wrappers.cc'), V.LIB_SRC, os.path.join(V.HARNESS, 'san_main.cc'), os.path.join(V.HARNESS, 'monitor', 'gen.cc')]
+    hk = V.file_hash([srcs[0], srcs[2], srcs[3], os.path.join(V.HARNESS, 'monitor', 'core.h'), os.path.join(V.HARNESS, 'monitor', 'gen.h')])
+    key = V.sha(hk, V.compiler_version(sb.compiler), ' '.join(sb.flags()))[:16]
+    exe = os.path.join(d, f'san-{sb.name}-{key}')
+    if os.path.exists(exe):
+        return exe
+
+    def comp(i):
+        o = f'{exe}.{i}.o'
+        fl = sb.flags() if i < 2 else ['-std=c++17', '-O1', '-g', '-w']  # driver + generators are not instrumented code under test
+        if i >= 2 and sb.mode == 'report':
+            fl = fl + ['-fsanitize=address']  # lets san_main.cc see __SANITIZE_ADDRESS__ / define __asan_on_error
+        r = V.run([sb.compiler] + fl + [f'-DVERIF_CFG="{sb.name}"', '-c', srcs[i], '-o', o])
+        if r.returncode != 0:
+            raise V.Inconclusive(f'sanitizer build {sb.name} failed: {srcs[i]}\n{r.stderr[-3000:]}')
+        return o
+    with ThreadPoolExecutor(4) as ex:
+        objs = list(ex.map(comp, range(4)))
+    link = [sb.compiler] + [f for f in sb.flags() if f.startswith('-fsanitize')] + objs + ['-o', exe + '.tmp']
+    r = V.run(link)
+    if r.returncode != 0:
+        raise V.Inconclusive(f'sanitizer link {sb.name} failed\n{r.stderr[-3000:]}')
+    os.replace(exe + '.tmp', exe)
+    for o in objs:
+        os.unlink(o)
+    return exe
+
+
+_src_cache = {}
+
+
+def source_text(fname, line):
+    """whitespace-normalised text of the reported source line (keys must survive unrelated edits above the site)"""
+    if fname not in _src_cache:
+        cands = glob.glob(os.path.join(V.REPO, 'fixed_lib', '**', fname), recursive=True)
+        _src_cache[fname] = open(cands[0], errors='replace').read().splitlines() if cands else []
+    l = _src_cache[fname]
+    if 0 < line <= len(l):
+        return ' '.join(l[line - 1].split())
+    return f'line {line}'
+
+
+def run_san(sb, exe, seed, ncalls, nworkers=V.NCPU, only=None):
+    env = dict(os.environ, ASAN_OPTIONS=ASAN_OPTS, UBSAN_OPTIONS='print_stacktrace=0')
+    watchdog = int(os.environ.get('VERIF_WATCHDOG_S', '1800'))
+
+    def worker(w):
+        cmd = [exe, str(w), str(nworkers), str(seed), str(ncalls), sb.mode] + ([only] if only else [])
+        try:
+            r = subprocess.run(cmd, capture_output=True, text=True, env=env, timeout=watchdog)
+        except subprocess.TimeoutExpired:
+            raise V.Inconclusive(f'sanitizer worker {w} of {sb.name} hit the watchdog')
+        if r.returncode != 0:
+            raise V.Inconclusive(f'sanitizer driver {sb.name} worker {w} exited {r.returncode}: {r.stderr[-500:]}')
+        return r.stdout
+    with ThreadPoolExecutor(nworkers) as ex:
+        outs = list(ex.map(worker, range(1 if only else nworkers)))
+    events, summaries, nodomain, died = [], {}, [], []
+    for o in outs:
+        for line in o.splitlines():
+            kv = dict(p.split('=', 1) for p in line.split()[1:] if '=' in p) if not line.startswith('CFG') else {}
+            if line.startswith('EV '):
+                kv['type'] = line.split()[1]
+                events.append(kv)
+            elif line.startswith('SUMMARY'):
+                summaries[kv['entry']] = kv
+            elif line.startswith('NODOMAIN'):
+                nodomain.append(kv['entry'])
+            elif line.startswith('DIED'):
+                died.append(kv)
+    return events, summaries, nodomain, died
+
+
+def san_arm(prop, tier, seed, cov, violations, inconcl, notes, arms_used):
+    arms_used.append('sanitizer-driver')
+    builds = san_builds(tier)
+    with ThreadPoolExecutor(len(builds)) as ex:
+        exes = list(ex.map(build_san, builds))
+    ncalls = int((200000 if tier == 'quick' else 3000000) * float(os.environ.get('VERIF_SCALE', '1')))
+    classes = {}
+    san_cov = {}
+    total_calls = 0
+    for sb, exe in zip(builds, exes):
+        events, summaries, nodomain, died = run_san(sb, exe, seed, ncalls)
+        if nodomain:
+            inconcl.append(f'{sb.name}: wrapper entries without an argument domain: {nodomain}')
+        if not summaries:
+            inconcl.append(f'{sb.name}: sanitizer driver reported no entry point')
+        zero = [e for e, s in summaries.items() if int(s['calls']) == 0]
+        if zero:
+            inconcl.append(f'{sb.name}: entry points with zero calls: {zero}')
+        calls = sum(int(s['calls']) for s in summaries.values())
+        total_calls += calls
+        dirty = set()
+        for ev in events:
+            e = ev['entry']
+            dirty.add(e)
+            if ev['type'] == 'ubsan':
+                key = f"san/{e}/{ev['kind']}@{ev['file']}:{source_text(ev['file'], int(ev['line']))}"
+            elif ev['type'] == 'asan':
+                key = f"san/{e}/asan-{ev.get('desc', '?')}"
+            else:
+                key = f"san/{e}/signal-{ev['sig']}" + ('-trap-build' if sb.mode == 'trap' else '')
+            c = classes.setdefault(key, {'key': key, 'count': 0, 'per_cfg': {}, 'witnesses': [], 'arm': 'sanitizer'})
+            n = 1
+            if ev['type'] == 'signal':
+                n = 0  # counted from the SUMMARY line below
+            c['count'] += n
+            c['per_cfg'][sb.name] = c['per_cfg'].get(sb.name, 0) + max(n, 1)
+            if len(c['witnesses']) < 4:
+                c['witnesses'].append({'build': sb.name, 'entry': e, 'a': int(ev['a']), 'b': int(ev['b']), 'event': ev['type'],
+                                       'detail': ev.get('kind') or ev.get('sig') or ev.get('desc'), 'site': f"{ev.get('file', '')}:{ev.get('line', '')}"})
+        for e, s in summaries.items():
+            if int(s['signals']):
+                for key, c in classes.items():
+                    if key.startswith(f'san/{e}/signal-') and sb.name in c['per_cfg']:
+                        c['count'] += int(s['signals'])
+        for dd in died:
+            key = f"san/{dd['entry']}/child-died"
+            classes.setdefault(key, {'key': key, 'count': 1, 'per_cfg': {sb.name: 1}, 'witnesses': [{'build': sb.name, 'entry': dd['entry'], 'status': dd['status']}], 'arm': 'sanitizer'})
+        clean = sorted(set(summaries) - dirty)
+        san_cov[sb.name] = {'mode': sb.mode, 'flags': ' '.join(f for f in sb.flags() if f.startswith('-f') or f.startswith('-O') or f.startswith('-std')),
+                            'entry_points': len(summaries), 'calls': calls, 'ubsan_reports': sum(int(s['ubsan']) for s in summaries.values()),
+                            'asan_reports': sum(int(s['asan']) for s in summaries.values()), 'signals': sum(int(s['signals']) for s in summaries.values()),
+                            'clean_entry_points': len(clean), 'entry_points_with_events': sorted(dirty),
+                            'calls_per_entry_min': min((int(s['calls']) for s in summaries.values()), default=0),
+                            'domains': sorted(set(s['domain'] for s in summaries.values()))}
+    for c in classes.values():
+        if c['count'] == 0:
+            c['count'] = 1
+        violations.append(c)
+    cov['sanitizer'] = san_cov
+    cov['evaluations'] += total_calls
+    cov['rule'] += ' | sanitizer arm: every entry point driven over the cross product of its boundary values plus random arguments in each instrumented build (calls counted per entry point; not added to distinct_nontrivial)'
+
+
+# ------------------------------------------------------------------------------------------------ consteval arm
+CE_MODES_QUICK = [('g++', 'c++17', True), ('clang++', 'c++20', False), ('g++', 'c++2b', False)]
+CE_MODES_THOROUGH = [(c, s, a) for c in ('g++', 'clang++') for (s, a) in (('c++17', True), ('c++17', False), ('c++20', False), ('c++2b', False))]
+SQRT_DEP = {'sqrt', 'hypot', 'asin', 'acos', 'sqrt_abacus'}
+
+
+def consteval_arm(prop, tier, seed, cov, violations, inconcl, notes, arms_used, points_path):
+    """points: lines 'entry a b expected is_double' written by the C08 monitor run from executed configurations"""
+    arms_used.append('constant-evaluator')
+    pts = []
+    with open(points_path) as f:
+        for line in f:
+            e, a, b, r, dbl = line.split()
+            pts.append((e, int(a), int(b), int(r), dbl == '1'))
+    if not pts:
+        inconcl.append('constant-evaluator arm: the monitor produced no sample points')
+        return
+    modes = CE_MODES_QUICK if tier == 'quick' else CE_MODES_THOROUGH
+    wd = os.path.join(V.CACHE, 'run', f'ce-{os.getpid()}')
+    shutil.rmtree(wd, ignore_errors=True)
+    os.makedirs(wd)
+    nchunks = V.NCPU
+    jobs = []
+    for (cc, std, abacus) in modes:
+        mname = f"{'gcc' if cc == 'g++' else 'clang'}-{std}{'-abacus' if abacus else ''}"
+        sqrt_ok = abacus or std != 'c++17'   # sqrt_constexpr_available
+        mp = [p for p in pts if sqrt_ok or p[0] not in ('sqrt', 'hypot', 'asin', 'acos')]
+        for ch in range(nchunks):
+            sub = mp[ch::nchunks]
+            if not sub:
+                continue
+            src = os.path.join(wd, f'{mname}-{ch}.cc')
+            with open(src, 'w') as f:
+                f.write('#define VERIF_KERNELS_ONLY 1\n#include "%s"\n' % os.path.join(V.HARNESS, 'wrappers.cc'))
+                f.write('constexpr long long canon_d(long long v) { return ((v & 0x7ff0000000000000ll) == 0x7ff0000000000000ll && (v & 0xfffffffffffffll)) ? 0x7ff8000000000000ll : v; }\n')
+                for (e, a, b, r, dbl) in sub:
+                    call = f'k_{e}<>({a}ll - 0, {b}ll - 0)'.replace('-9223372036854775808ll - 0', '(-9223372036854775807ll - 1)')
+                    if dbl:
+                        call = f'canon_d({call})'
+                    f.write(f'static_assert({call} == {r}ll - 0, "pt");\n'.replace('== -9223372036854775808ll - 0', '== (-9223372036854775807ll - 1)'))
+            jobs.append((cc, std, abacus, mname, src, sub))
+
+    def compile_job(j):
+        cc, std, abacus, mname, src, sub = j
+        cmd = [cc, f'-std={std}', '-fsyntax-only', '-w', f'-D{V.HOOK_DEFINE}=1', f'-I{V.LIB_INC}']
+        cmd += ['-fmax-errors=0'] if cc == 'g++' else ['-ferror-limit=0', '-fconstexpr-steps=100000000']
+        if cc == 'g++':
+            cmd += ['-fconstexpr-ops-limit=1000000000', '-fconstexpr-loop-limit=10000000']
+        if abacus:
+            cmd.append('-DFIXEDMATH_ENABLE_SQRT_ABACUS_ALGO')
+        r = V.run(cmd + [src])
+        return r.returncode, r.stderr
+    with ThreadPoolExecutor(V.NCPU) as ex:
+        results = list(ex.map(compile_job, jobs))
+    classes = {}
+    ce_cov = {}
+    total = 0
+    for j, (rc, err) in zip(jobs, results):
+        cc, std, abacus, mname, src, sub = j
+        mc = ce_cov.setdefault(mname, {'evaluations': 0, 'accepted_and_equal': 0, 'not_constant': 0, 'value_mismatch': 0, 'entries': set()})
+        bad = {}
+        other_errors = []
+        cur = None   # point whose diagnostics are being read: the reason follows the static_assert line
+
+        def reason_of(text):
+            t = text.lower()
+            if 'division by zero' in t:
+                return 'division-by-zero'
+            if 'non-constexpr function' in t or "non-'constexpr' function" in t or 'non-\u2018constexpr\u2019 function' in t:
+                return 'call-of-non-constexpr-function'
+            if 'outside the range of representable values' in t:
+                return 'float-to-integer-out-of-range'
+            if 'overflow' in t or 'produces an infinity' in t or 'produces a nan' in t:
+                return 'overflow'
+            if 'shift' in t:
+                return 'invalid-shift'
+            if 'array' in t and ('bound' in t or 'subscript' in t or 'index' in t):
+                return 'out-of-bounds'
+            return None
+        for line in err.splitlines():
+            m = re.match(r'(.+?):(\d+):(\d+): (?:fatal )?(error|note): (.*)', line)
+            if not m:
+                continue
+            msg = m.group(5)
+            if m.group(4) == 'error' and os.path.abspath(m.group(1)) == os.path.abspath(src):
+                ln = int(m.group(2)) - 4   # three header lines precede the points
+                if 0 <= ln < len(sub):
+                    kind = 'value-mismatch' if ('static assertion failed' in msg or 'static_assert failed' in msg) else 'not-a-constant-expression'
+                    if ln not in bad:
+                        bad[ln] = [kind, msg, None]
+                    elif kind == 'not-a-constant-expression':
+                        bad[ln][0] = kind
+                    cur = ln
+                    r = reason_of(msg)
+                    if r and not bad[ln][2]:
+                        bad[ln][2] = r
+                    continue
+            if cur is not None:
+                r = reason_of(msg)
+                if r and not bad[cur][2]:
+                    bad[cur][2] = r
+            elif m.group(4) == 'error':
+                other_errors.append(line)
+        if rc != 0 and not bad:
+            inconcl.append(f'constant-evaluator {mname}: compiler failed without a point diagnostic: {err[-400:]}')
+        if other_errors and not bad:
+            inconcl.append(f'constant-evaluator {mname}: {other_errors[:2]}')
+        for i, p in enumerate(sub):
+            mc['evaluations'] += 1
+            mc['entries'].add(p[0])
+            total += 1
+            if i not in bad:
+                mc['accepted_and_equal'] += 1
+                continue
+            kind, msg, reason = bad[i]
+            mc['not_constant' if kind != 'value-mismatch' else 'value_mismatch'] += 1
+            key = f'consteval/{p[0]}/{kind}'
+            if kind != 'value-mismatch':
+                special = ''
+                if p[4]:
+                    d = struct.unpack('<d', struct.pack('<q', p[3]))[0]
+                    if d != d or d in (float('inf'), float('-inf')):
+                        special = '/double-result-inf-or-nan'
+                # an IEEE-special double result: the evaluators word the rejection differently, the class is the same
+                key += special if special else '/' + (reason or 'unclassified')
+            c = classes.setdefault(key, {'key': key, 'count': 0, 'per_cfg': {}, 'witnesses': [], 'arm': 'consteval'})
+            c['count'] += 1
+            c['per_cfg'][mname] = c['per_cfg'].get(mname, 0) + 1
+            if len(c['witnesses']) < 4:
+                c['witnesses'].append({'mode': mname, 'entry': p[0], 'a': p[1], 'b': p[2], 'runtime_value': p[3], 'diagnostic': msg[:200]})
+    for m in ce_cov.values():
+        m['entries'] = len(m['entries'])
+    for c in classes.values():
+        violations.append(c)
+    cov['constant_evaluator'] = ce_cov
+    cov['evaluations'] += total
+    cov['rule'] += ' | constant-evaluator arm: sample points per entry point forced into static_assert in each compiler/standard mode, expected values taken from the executed configurations'
+    shutil.rmtree(wd, ignore_errors=True)
+
+
+# ------------------------------------------------------------------------------------------------ dispatch
 def setup():
-    pass
+    for sb in san_builds('quick'):
+        build_san(sb)
 
 
-def extra_arms(prop, tier, seed, cov, violations, inconcl, notes, arms_used):
-    pass
+def pre_monitor_env(prop, tier):
+    """environment additions for the monitor run"""
+    if prop == 'C08':
+        p = os.path.join(V.CACHE, 'run')
+        os.makedirs(p, exist_ok=True)
+        return {'VERIF_POINTS': os.path.join(p, f'points-{os.getpid()}.txt')}
+    return {}
+
+
+def extra_arms(prop, tier, seed, cov, violations, inconcl, notes, arms_used, env=None):
+    if prop == 'C07':
+        san_arm(prop, tier, seed, cov, violations, inconcl, notes, arms_used)
+    if prop == 'C08':
+        pp = (env or {}).get('VERIF_POINTS')
+        if pp and os.path.exists(pp):
+            consteval_arm(prop, tier, seed, cov, violations, inconcl, notes, arms_used, pp)
+            os.unlink(pp)
+        else:
+            inconcl.append('constant-evaluator arm: no points file')
 
 
 def replay(prop, rec):
+    """re-run a sanitizer / consteval witness against the current tree"""
+    w = rec['witnesses'][0]
+    if rec.get('arm') == 'sanitizer':
+        sbs = [b for b in san_builds('thorough') if b.name == w.get('build')] or san_builds('quick')[:1]
+        exe = build_san(sbs[0])
+        env = dict(os.environ, ASAN_OPTIONS=ASAN_OPTS)
+        # the driver regenerates its deterministic argument stream for that one entry point
+        r = subprocess.run([exe, '0', '1', str(rec.get('seed', 1)), '200000', sbs[0].mode, w['entry']], capture_output=True, text=True, env=env)
+        print(r.stdout[-3000:])
+        hit = any(l.startswith('EV ') for l in r.stdout.splitlines())
+        if hit:
+            print(f"VIOLATION property={prop} replay=(sanitizer witness re-observed)")
+            return 1
+        return 0
+    print('replay of constant-evaluator witnesses: re-run the check; the points are regenerated from the seed')
     return 2
